@@ -148,6 +148,7 @@ type scen struct {
 	Ns    []uint64 `json:"ns"`
 	Ops   []op     `json:"ops"`
 	Batch int      `json:"batch"` // WriteBatchSize
+	Pre   []uint64 `json:"pre,omitempty"` // heights stored by an earlier Store on the same datastore (Append, Stop): the Store under test loads them in Start
 }
 
 type result struct {
@@ -224,12 +225,37 @@ func classify(w *world, n uint64, h *vhdr.Header, err error) string {
 func runScenario(t *testing.T, w *world, sc scen) (res result) {
 	synctest.Test(t, func(t *testing.T) {
 		gds := newGateDS()
+		bg, bgCancel := context.WithTimeout(context.Background(), time.Hour)
+		defer bgCancel()
+		// a store loaded by Start (heightSub.Init(head), tail above 1): a first Store writes sc.Pre and stops
+		initTerm := "None None []"
+		if len(sc.Pre) > 0 {
+			st0, err := store.NewStore[*vhdr.Header](gds, store.WithWriteBatchSize(sc.Batch))
+			if err != nil {
+				t.Fatal(err)
+			}
+			if err := st0.Start(bg); err != nil {
+				t.Fatal(err)
+			}
+			hdrs := make([]*vhdr.Header, len(sc.Pre))
+			ids := make([]string, len(sc.Pre))
+			for k, h := range sc.Pre {
+				hdrs[k] = w.hs[h]
+				ids[k] = w.hid(h)
+			}
+			if err := st0.Append(bg, hdrs...); err != nil {
+				t.Fatal(err)
+			}
+			if err := st0.Stop(bg); err != nil {
+				t.Fatal(err)
+			}
+			synctest.Wait()
+			initTerm = fmt.Sprintf("%s %s %s", emit.Some(w.hid(sc.Pre[len(sc.Pre)-1])), emit.Some(w.hid(sc.Pre[0])), emit.List(ids))
+		}
 		st, err := store.NewStore[*vhdr.Header](gds, store.WithWriteBatchSize(sc.Batch))
 		if err != nil {
 			t.Fatal(err)
 		}
-		bg, bgCancel := context.WithTimeout(context.Background(), time.Hour)
-		defer bgCancel()
 		if err := st.Start(bg); err != nil {
 			t.Fatal(err)
 		}
@@ -508,7 +534,7 @@ func runScenario(t *testing.T, w *world, sc scen) (res result) {
 			}
 			rets[i] = emit.Nat(r.ret)
 		}
-		res.term = fmt.Sprintf("Case12 %s %s %s %d %d %s %s", emit.List(ns), emit.List(ev), emit.List(obs), height, head, emit.List(rets), emit.B(probeOK))
+		res.term = fmt.Sprintf("Case12 %s %s %s %s %d %d %s %s", initTerm, emit.List(ns), emit.List(ev), emit.List(obs), height, head, emit.List(rets), emit.B(probeOK))
 		res.probeOK = probeOK
 		res.descr = map[string]any{"scenario": sc, "obs": obs, "height": height, "head": head, "returned_at": rets, "cancel_probe_released": probeOK}
 		// cleanup: nothing may outlive the bubble (open every gate still armed, end every context)
@@ -622,9 +648,16 @@ func TestC12(t *testing.T) {
 		"batch; plus random scenarios with 2-3 readers, 1-4 batches, WriteBatchSize {1,2,64}; plus free-running race rounds (long batches, spinning gates, header-method hook) " +
 		"whose model outcome is schedule-independent; distinct by scenario; non-trivial when a reader or the flush was held, a context cancelled, or a race round"
 	w := newWorld()
+	var curPre []uint64 // the initial store of the scenarios being added (nil: fresh and empty)
 	add := func(sc scen) {
+		if sc.Pre == nil {
+			sc.Pre = curPre
+		}
+		if sc.Pre != nil {
+			sc.Name += "/pre"
+		}
 		r := runScenario(t, w, sc)
-		key := fmt.Sprintf("%v/%v/%d", sc.Ns, sc.Ops, sc.Batch)
+		key := fmt.Sprintf("%v/%v/%d/%v", sc.Ns, sc.Ops, sc.Batch, sc.Pre)
 		nontriv := false
 		for _, o := range sc.Ops {
 			if o.K == SG || o.K == BG || o.K == CAN || o.K == SYNC || o.G2 {
@@ -633,6 +666,7 @@ func TestC12(t *testing.T) {
 		}
 		out.Add(r.term, r.descr, key, nontriv)
 		out.Count("readers", fmt.Sprint(len(sc.Ns)))
+		out.Count("initial_store", fmt.Sprint(sc.Pre))
 		out.Count("write_batch_size", fmt.Sprint(sc.Batch))
 		out.Count("blocked_at_end", fmt.Sprint(r.blocked))
 		out.Count("cancel_probe_released", fmt.Sprint(r.probeOK))
@@ -661,16 +695,26 @@ func TestC12(t *testing.T) {
 		{"unordered", func(b uint64) []uint64 { return []uint64{b + 1, b} }},
 		{"hole", func(b uint64) []uint64 { return []uint64{b, b + 2} }},
 	}
-	for _, prefix := range [][]uint64{nil, {1, 2}} {
+	type sweepCfg struct {
+		pre, prefix []uint64
+	}
+	// the third sweep starts from a store loaded by Start: an earlier Store appended 3..6 and stopped, so
+	// Head = 6 = Height(), Tail = 3 (heights 1, 2 are at or below Height() and never stored)
+	for _, cfg := range []sweepCfg{{nil, nil}, {nil, []uint64{1, 2}}, {[]uint64{3, 4, 5, 6}, nil}} {
 		if raceOnly {
 			break
 		}
+		prefix := cfg.prefix
+		curPre = cfg.pre
 		base := uint64(5)
 		if prefix != nil {
 			base = 3
 		}
+		if cfg.pre != nil {
+			base = 7
+		}
 		for _, sh := range shapes {
-			if !thorough && prefix != nil && (sh.name == "contig2" || sh.name == "unordered") {
+			if !thorough && (prefix != nil || cfg.pre != nil) && (sh.name == "contig2" || sh.name == "unordered") {
 				continue // quick: the full shape list only on the fresh store
 			}
 			hs := sh.hs(base)
@@ -678,7 +722,11 @@ func TestC12(t *testing.T) {
 			if prefix != nil {
 				extra = 2 // stored by the prefix
 			}
-			for _, n := range []uint64{base, base + 1, base + 2, base + 3, extra, 0} {
+			heightsAsked := []uint64{base, base + 1, base + 2, base + 3, extra, 0}
+			if cfg.pre != nil {
+				heightsAsked = []uint64{base, base + 1, base + 2, base + 3, 2, 4, 0} // 2: below Tail, never stored; 4: loaded by Start
+			}
+			for _, n := range heightsAsked {
 				if n == 0 && sh.name != "contig1" {
 					continue
 				}
@@ -755,6 +803,7 @@ func TestC12(t *testing.T) {
 		}
 	}
 	out.Exhaustive = thorough
+	curPre = nil
 
 	// --- random scenarios: 2-3 readers, several batches, cancellations; interleaved with the
 	// free-running race rounds (so that their big cases spread over the shards)
@@ -785,7 +834,12 @@ func TestC12(t *testing.T) {
 	}
 	kr := 0
 	for k := 0; k < nrand; k++ {
+		curPre = nil
+		if k%4 == 3 {
+			curPre = []uint64{3, 4, 5, 6}
+		}
 		add(randomScenario(rng, k))
+		curPre = nil
 		if k%every == every-1 && kr < rounds {
 			race(kr)
 			kr++
@@ -1071,7 +1125,7 @@ func raceRound(t *testing.T, w *world, rng *emit.Rand, k int) []result {
 		for i, n := range ns {
 			nst[i] = emit.N(n)
 		}
-		r.term = fmt.Sprintf("Case12 %s %s %s %d %d", emit.List(nst), emit.List(ev), emit.List(obs), height, head)+" [] true"
+		r.term = fmt.Sprintf("Case12 None None [] %s %s %s %d %d", emit.List(nst), emit.List(ev), emit.List(obs), height, head)+" [] true"
 		r.descr = map[string]any{"kind": []string{"release-all-vs-setheight", "notify-loop-vs-pending", "lock-held-by-notify"}[kind], "readers": nr, "batch": big, "obs": obs, "height": height, "head": head}
 		out = append(out, r)
 		if os.Getenv("VERIF_C12_RACE_ONLY") != "" {
@@ -1282,7 +1336,7 @@ func raceLock(t *testing.T, rng *emit.Rand, k int) []result {
 		if h, err := st.Head(bg); err == nil {
 			head = h.Height()
 		}
-		r.term = fmt.Sprintf("Case12 %s %s %s %d %d [] true", emit.List(rep("2", nr)), emit.List(ev), emit.List(obs), height, head)
+		r.term = fmt.Sprintf("Case12 None None [] %s %s %s %d %d [] true", emit.List(rep("2", nr)), emit.List(ev), emit.List(obs), height, head)
 		r.descr = map[string]any{"kind": "lock-held-by-notify", "readers": nr, "batch": farLen + 1, "obs": obs, "height": height, "head": head}
 		out = append(out, r)
 		if os.Getenv("VERIF_C12_RACE_ONLY") != "" {
@@ -1393,7 +1447,7 @@ func raceNotify(t *testing.T, rng *emit.Rand, k int) []result {
 		if h, err := st.Head(bg); err == nil {
 			head = h.Height()
 		}
-		r.term = fmt.Sprintf("Case12 %s %s %s %d %d", emit.List(nst), emit.List(ev), emit.List(obs), height, head)+" [] true"
+		r.term = fmt.Sprintf("Case12 None None [] %s %s %s %d %d", emit.List(nst), emit.List(ev), emit.List(obs), height, head)+" [] true"
 		r.descr = map[string]any{"kind": "notify-loop-vs-pending", "readers": nr, "batch": farLen, "obs": obs, "height": height, "head": head}
 		out = append(out, r)
 		if os.Getenv("VERIF_C12_RACE_ONLY") != "" {
